@@ -84,6 +84,8 @@ def _request_sets(ap):
     if n >= 2:
         sets['single-inside'] = [ap[0] * 0.25 + ap[1] * 0.75]
     sets['below'] = [ap[0] * 0.5]
+    sets['below-just'] = [ap[0] * 0.9995]                 # no tolerance band below the table: this is too small
+    sets['below-barely'] = [ap[-1], ap[0] * (1.0 - 1e-9)]
     sets['below-in-mixture'] = [ap[-1], ap[0] * 0.5]
     return sets
 
